@@ -228,7 +228,7 @@ func parseClause(c *Contract, body, file string, ln int) error {
 		c.Ovf = rest == "checked"
 	case "modifies":
 		c.HasModifies = true
-		for _, m := range strings.Split(rest, ",") {
+		for _, m := range splitTop(rest, ",") {
 			m = strings.TrimSpace(m)
 			if m != "" && m != "nothing" {
 				c.Modifies = append(c.Modifies, m)
